@@ -47,11 +47,17 @@ def info(out):
 
 def run_task(task):
     import checks.C01 as me
+    if task["params"].get("mode") == "cas":
+        from checks import cas_unit
+        return cas_unit.run_task(task)
     return histcheck.run_task(task, me)
 
 
 def replay(rec):
     import checks.C01 as me
+    if rec["params"].get("mode") == "cas":
+        from checks import cas_unit
+        return cas_unit.replay(rec)
     return histcheck.replay(rec, me)
 
 
@@ -77,7 +83,15 @@ def tasks(tier, seed, selftest=False):
             for fam in ("B22", "CH4", "S2C2", "S1C3"):
                 S.append(dict(family=fam, skeleton=sk, timebox=300, cube_k=4, nbits=20 if fam != "S1C3" else 26))
             S.append(dict(family="U2", skeleton=sk, timebox=300, params={"order": "reversed"}))
-    return histcheck.mk_tasks(PROP, S, seed)
+    T = histcheck.mk_tasks(PROP, S, seed)
+    # the seed-selection step on its own: compute_attractors_symbolic on every state of the node in a symbolic order
+    # (checks/cas_unit.py), fine mode
+    T.append({"prop": PROP, "family": "U2", "label": "U2/cas-unit", "timebox": 40 if q else 900, "seed": seed, "params": {"mode": "cas"}})
+    T.append({"prop": PROP, "family": "D3", "label": "D3/cas-unit", "timebox": 40 if q else 1200, "seed": seed, "params": {"mode": "cas"}})
+    if not q:
+        for cube in common.cubes(24, 4):
+            T.append({"prop": PROP, "family": "U3", "label": "U3/cas-unit", "timebox": 600, "seed": seed, "cube": cube, "params": {"mode": "cas"}})
+    return T
 
 
 def main(tier, seed, t0, selftest=False):
@@ -85,6 +99,7 @@ def main(tier, seed, t0, selftest=False):
     return common.finish(PROP, tier, seed, "model_checking", results, t0, selftest=selftest, functions=FUNCTIONS,
                          bounds={"strategies": "build, expand_block(), expand_bfs(), expand_dfs(), expand_scc(), expand_attractor_seeds() with default settings",
                                  "families": "U2 exhaustive; D3, B21, P:MAA3+SW2 (5 variables: motif-avoidant core x switch) time-boxed (quick); U3 cubes, B22, CH4, S2C2, S1C3, reversed oracle order (thorough)",
-                                 "outside": "n > 4"},
+                                 "cas unit": "compute_attractors_symbolic on the (un)expanded root with all states outside the child motifs as candidates, in a symbolic order, seeds_only symbolic; fine mode (U2, D3; U3 cubes in thorough)",
+                                 "outside": "n > 4 (7 for modular families)"},
                          assumptions=["contract stubs of DESIGN.md §8 validated on every representative",
                                       "compute_attractors_symbolic is a region oracle specified through REACH (its inside is decided by C12/C13)"])
